@@ -55,6 +55,27 @@ def check_choose(case):
         raise Violation('CHOOSE(%d, %d values) -> %r, expected an error' % (i, len(vals), r['result']), enc(r['result']), 'error')
 
 
+def enum_choose_long(tier, shard, nshards):
+    k = 0
+    for n in (11, 30, 100, 200, 253, 254):
+        for i in (1, 2, n // 2, n - 1, n, n + 1):
+            for sep in (',', ';'):
+                k += 1
+                if k % nshards == shard:
+                    yield [n, i, sep]
+
+
+def check_choose_long(case):
+    n, i, sep = case
+    f = 'CHOOSE(%d%s%s)' % (i, sep, sep.join(str(1000 + k) for k in range(1, n + 1)))
+    r = outcome(f, {})
+    if i <= n:
+        if r['error'] is not None or r['result'] != 1000 + i:
+            raise Violation('CHOOSE(%d, 1001..%d) (%d values, separator %r) -> %r, expected %d' % (i, 1000 + n, n, sep, r['error'] or r['result'], 1000 + i), r['error'] or enc(r['result']), 1000 + i)
+    elif r['error'] is None:
+        raise Violation('CHOOSE(%d, %d values) -> %r, expected an error' % (i, n, r['result']), enc(r['result']), 'error')
+
+
 # ---------------------------------------------------------------- INDEX
 
 @st.composite
@@ -348,6 +369,8 @@ LAWS = [
         nontrivial=lambda c: c['i'] != 1,
         classes=lambda c: (('inside' if 1 <= c['i'] <= len(c['vals']) else 'outside'), ('blank-choice' if any(v is None for v in c['vals']) else 'no-blank')), required=('inside', 'outside', 'blank-choice'),
         rule='CHOOSE(i, 1-10 values of mixed types incl. blanks given as blank variables, NULL or omitted slots) with i in -3..13: v_i inside 1..n (a blank when v_i is blank), an error outside'),
+    Law('choose_long', check_choose_long, enumerate=enum_choose_long, exhaustive=True, shards=(4, 4),
+        rule='CHOOSE with 11, 30, 100, 200, 253 and 254 values (the spreadsheet limit), index 1, 2, n/2, n-1, n and n+1, both list separators: v_i inside, an error at n+1'),
     Law('index', check_index, strategy=index_case(), key=index_key, classes=index_classes, quick=5000, thorough=300000, shards=(8, 16),
         required=('1d', '2d', 'negative-index', 'zero-index', 'inside-offdiag', 'beyond', 'how:lit', 'how:var', 'how:range'),
         nontrivial=lambda c: index_key(c) != '' or 'beyond' in index_classes(c) or 'inside-offdiag' in index_classes(c),
